@@ -78,6 +78,43 @@ def obs_of(evs, inst, who):
     return out
 
 
+def shared_globals(res, a, b):
+    """Second clause of the property ('share no unsynchronised mutable state'): two undisciplined instances under ThreadSanitizer;
+    every process-global variable involved in a reported race is shared mutable state.  Each one must be a listed finding
+    (by name, or by class for the kernel dispatch pointers); a global that is not listed is a violation."""
+    import re
+    exe = vlib.build_harness("multi_record", ["multi_record.c"], variant="tsan", sync=False, libs=("enc", "dec"))
+    out = os.path.join(vlib.tmpdir(), "c17_tsan_%d.nd" % os.getpid())
+    a2 = dict(a, n=3)
+    b2 = dict(b, n=3)
+    cmd = [exe, "--out", out, "--timeout", "900", "--inst", spec_str(a2), "--inst", spec_str(b2, 5)]
+    rc, log = vlib.sh(cmd, timeout=2400, env={"TSAN_OPTIONS": "halt_on_error=0 report_signal_unsafe=0 history_size=2 exitcode=0"})
+    if os.path.exists(out):
+        os.remove(out)
+    names = sorted(set(re.findall(r"Location is global '([^']+)'", log)))
+    res.case("tsan pair " + spec_str(a2) + " || " + spec_str(b2))
+    res.add("tsan_reports", log.count("WARNING: ThreadSanitizer"))
+    if not names and "ThreadSanitizer" not in log:
+        raise vlib.ModelFailure("ThreadSanitizer run produced no report at all (rc=%s): %s" % (rc, log[-1500:]))
+    # dispatch pointers = data symbols defined by the rtcd translation units
+    lib = os.path.join(vlib.BUILD, "tsan", "out", "libSvtAv1Enc.a")
+    rc2, nm = vlib.sh(["nm", "-A", lib], timeout=300)
+    rtcd = set()
+    for l in nm.splitlines():
+        f = l.split()
+        if len(f) >= 3 and "rtcd" in f[0] and f[-2] in ("B", "b", "D", "d", "C"):
+            rtcd.add(f[-1])
+    res.cov["shared_globals_seen"] = len(names)
+    res.cov["shared_globals_dispatch_pointers"] = len([n for n in names if n in rtcd])
+    for n in names:
+        if n in rtcd:
+            key = {"kind": "shared_global", "class": "dispatch_pointer"}
+        else:
+            key = {"kind": "shared_global", "global": re.sub(r"\.\d+$", "", n)}
+        res.violation("instances share unsynchronised mutable global state: '%s' is accessed by threads of two instances without "
+                      "synchronisation (ThreadSanitizer)" % n, "", key=key)
+
+
 def run(res):
     res.cov["rule"] = ("cases = TLC populations of Instances.tla + groups of instances run in one process (each group a distinct "
                        "combination of instance configurations and start offsets); an instance is non-trivial if it produced output; "
@@ -190,6 +227,7 @@ def run(res):
             res.violation("outputs differ from the solo runs: %s" % desc, " ".join(cmd), key=fkey)
         if expect and not mism:
             res.add("interfering_population_ran_clean")
+    shared_globals(res, A, D)
     res.sample({"groups": [n for n, _, _ in groups]})
     bundle.validate(res, "Observe", "C17 instance output vs solo run")
     for s in st.values():
